@@ -32,7 +32,8 @@ ASSUMPTIONS = [
 ]
 OPTS = list(itertools.product((False, True), repeat=5))  # ignore_occupancy, ignore_autoclashes, nucleic_acid_only, require_same_atom_name, molprobity
 TYPE_ATOM = {"C": "C1'", "N": "N1", "O": "O2'", "P": "P"}
-OCC = [(1.0, 1.0), (0.5, 0.5), (0.3, 0.7), (0.5, 0.6), (None, None), (0.0, 1.0), (0.25, 0.25)]
+# appended (indices of stored replays stay valid): sums that miss 1 by a few thousandths / hundredths, and a sum that is 1 only up to rounding (0.1 + 0.9, 0.35 + 0.65)
+OCC = [(1.0, 1.0), (0.5, 0.5), (0.3, 0.7), (0.5, 0.6), (None, None), (0.0, 1.0), (0.25, 0.25), (0.5, 0.504), (0.62, 0.376), (0.33, 0.66), (0.35, 0.65), (0.1, 0.9), (1.0, 0.004)]
 _tier = ["quick"]
 
 
